@@ -9,13 +9,13 @@ TECHNIQUE = "runtime monitoring on a virtual-time simulated network: bursts of C
 LEVEL_TEXT = "Each generated burst (2-8 messages, 1-3 endpoints, every reaction kind at several delays) is run against the real MessageManager; predicted first-transmission instants, exchange intervals, FIFO order and completion of every request are compared with the recorded history."
 LEVEL_NOTE = "Trusted: harness/simnet.py wire log and virtual clock, the queue model in checks/c14.py. Submission order is recorded at the MessageManager.send_message boundary (instance wrapper installed from the harness). Peers never answer with a separate response while the exchange is still unacknowledged."
 RULE = (
-    "one case = one burst: messages (submit offset, endpoint, CON/NON, reaction in {piggyback, empty ACK + separate response, ACK with a foreign response + separate response, Reset, silence, ICMP error} with delay class). "
+    "one case = one burst: messages (submit offset, endpoint, CON/NON, reaction in {piggyback, empty ACK + separate response, ACK with a foreign response + separate response, Reset, synchronous send failure at the first retransmission, silence, ICMP error} with delay class). "
     "Non-trivial = at least one message was held back behind another exchange; distinct = distinct tuples of (endpoint, type, reaction, delay class, offset class)"
 )
 ASSUMPTIONS = ["default TransportTuning (MAX_RETRANSMIT 4) for all requests", "one-way latency 1 ms"]
 REQUIRED_MONITORS = {"first_tx_time": 300, "no_overlap": 300, "fifo": 100, "held_back_failed_with_head": 20, "non_not_delayed": 50, "other_endpoint_not_delayed": 50, "all_completed": 100, "backlog_invariant": 200}
 
-REACTIONS = ["piggy", "empty+sep", "foreign-ack+sep", "rst", "silent", "icmp"]
+REACTIONS = ["piggy", "empty+sep", "foreign-ack+sep", "rst", "silent", "icmp", "unreach-at-retx"]
 DELAYS = {"now": 0.0, "short": 0.3, "after-retx": 3.5}
 OFFSETS = [0.0, 0.0, 0.0, 0.0, 0.01, 1.0, 5.0, 120.0]  # 120 s: after an unanswered exchange ahead has timed out
 
@@ -36,7 +36,7 @@ def gen_burst(r):
         typ = "CON" if r.random() < 0.8 else "NON"
         reaction = r.choice(REACTIONS if typ == "CON" else ["piggy", "silent"])
         # keep silence / icmp rarer: they end everything queued behind them
-        if reaction in ("silent", "icmp") and r.random() < 0.5:
+        if reaction in ("silent", "icmp", "unreach-at-retx") and r.random() < 0.5:
             reaction = "piggy"
         msgs.append({"i": i, "t": t, "ep": r.randrange(neps), "type": typ, "reaction": reaction, "delay": r.choice(list(DELAYS))})
     return neps, msgs
@@ -85,6 +85,17 @@ def run_burst(neps, msgs, seed, rep, case):
                 loop.call_later(d, peer.send, src, rc.Msg(rc.RST, 0, m.mid, b"", (), b""))
             elif kind == "icmp":
                 net.inject_error(C, peer.addr, 111, delay=d)
+            elif kind == "unreach-at-retx":
+                # the peer stays silent and drops off the network: the operating system refuses the first
+                # retransmission right in the send call (synchronous failure), later the route is back
+                def off():
+                    net.unreachable[peer.addr] = 101
+
+                def on():
+                    net.unreachable.pop(peer.addr, None)
+
+                loop.call_later(0.5, off)
+                loop.call_later(3.4, on)
 
         peers = [simnet.RawPeer(net, ip, port, on_msg) for ip, port in EPS]
         cli = await simnet.make_context(net, "10.0.0.2", 40001, None, server=False)
@@ -94,7 +105,7 @@ def run_burst(neps, msgs, seed, rep, case):
         orig = mman.send_message
 
         def send_message(message, monitor):
-            rec = {"seq": len(submissions), "t": loop.time(), "path": None}
+            rec = {"seq": len(submissions), "t": loop.time(), "path": None, "mark": len(net.log)}
             submissions.append(rec)
             try:
                 return orig(message, monitor)
@@ -159,11 +170,14 @@ def judge(box, msgs, res, rep, case):
         return
     # first transmissions and retransmission gaps per (dst, mid)
     first_tx = {}
+    first_tx_seq = {}
     txs = {}
     for e in net.log:
-        if e.kind == "send" and e.src == C and e.msg is not None and rc.is_request(e.msg.code):
+        # (a send the operating system refuses on the spot is a transmission attempt like any other)
+        if e.kind in ("send", "senderror") and e.src == C and e.msg is not None and rc.is_request(e.msg.code):
             k = (e.dst, e.msg.mid)
             first_tx.setdefault(k, e.t)
+            first_tx_seq.setdefault(k, e.seq)
             txs.setdefault(k, []).append(e.t)
     done_by_i = {rq["spec"]["i"]: rq["done"] for rq in reqs}
     held_back = 0
@@ -180,6 +194,7 @@ def judge(box, msgs, res, rep, case):
         # ---- queue model ----
         free_at = -1.0  # instant the endpoint became free (previous exchange ended by ACK/RST)
         fail_at = None  # instant the head exchange failed (timeout / transport error): everything queued then fails with it
+        fail_seq = None  # wire-log position of the failing event (decides about submissions in the same instant)
         prev_open = False
         intervals = []
         order_tx = []
@@ -188,7 +203,7 @@ def judge(box, msgs, res, rep, case):
             o = first_tx.get(key)
             ts = s["t"]
             i = s["spec"]["i"]
-            if fail_at is not None and ts < fail_at - 1e-12:
+            if fail_at is not None and (ts < fail_at - 1e-12 or (abs(ts - fail_at) <= 1e-12 and fail_seq is not None and s["mark"] <= fail_seq)):
                 # was waiting when the exchange ahead failed
                 rep.monitor("held_back_failed_with_head")
                 held_back += 1
@@ -200,7 +215,7 @@ def judge(box, msgs, res, rep, case):
                 elif not isinstance(d[1], error.Error) or abs(d[0] - fail_at) > 1e-6:
                     rep.violation("held-back-wrong-failure", "a held-back request did not fail with a library error in the instant the exchange ahead of it failed", wit(submission=s["seq"], done=repr(d), fail_at=fail_at), case)
                 continue
-            fail_at = None
+            fail_at = fail_seq = None
             predicted = max(ts, free_at)
             if predicted > ts + 1e-12:
                 held_back += 1
@@ -212,15 +227,18 @@ def judge(box, msgs, res, rep, case):
                 rep.violation("released-at-wrong-instant/%s" % ("late" if o > predicted else "early"), "a confirmable message was first transmitted at another instant than (submission, or the end of the previous exchange with that endpoint)", wit(submission=s["seq"], observed=o, predicted=predicted), case)
             order_tx.append((o, s["seq"]))
             # ---- how did this exchange end? ----
-            end, how = None, None
+            end, how, end_seq = None, None, None
             for e in net.log:
-                if e.t < o - 1e-12:
+                if e.t < o - 1e-12 or e.seq < first_tx_seq.get(key, 0):
                     continue
                 if e.kind == "deliver" and e.src == ep and e.dst == C and e.msg is not None and e.msg.mid == s["mid"] and e.msg.type in (rc.ACK, rc.RST):
                     end, how = e.t, "ack" if e.msg.type == rc.ACK else "rst"
                     break
                 if e.kind == "error" and e.src == ep and e.dst == C:
-                    end, how = e.t, "error"
+                    end, how, end_seq = e.t, "error", e.seq
+                    break
+                if e.kind == "senderror" and e.src == C and e.dst == ep:
+                    end, how, end_seq = e.t, "error", e.seq
                     break
             tl = txs[key]
             gaps = [b - a for a, b in zip(tl, tl[1:])]
@@ -233,12 +251,12 @@ def judge(box, msgs, res, rep, case):
                 if d is None:
                     rep.violation("unacknowledged-request-never-fails", "a confirmable request that was never acknowledged did not fail", wit(submission=s["seq"]), case)
                     return
-                end, how = d[0], "timeout"
+                end, how, end_seq = d[0], "timeout", None
             intervals.append((o, end, s["seq"], how))
             if how in ("ack", "rst"):
                 free_at = end
             else:
-                fail_at = end
+                fail_at, fail_seq = end, end_seq
                 free_at = end
         # ---- at most one open exchange ----
         rep.monitor("no_overlap")
